@@ -38,6 +38,7 @@ NOT_DETECTED = {'seeded/C15-r3-change1/patch.diff': 'needs std::bad_alloc betwee
 DECLINED = {'seeded/C09-r5-change1/patch.diff': ('C09', 'the zero-byte mask is a 32-bit subtraction over packed bytes: outside the byte-term language, R09.e/R09.d undecided'),
             'seeded/C09-r5-change2/patch.diff': ('C09', 'memcmp on block bytes against a cache member: outside the term language; R09.m names the member and stays undecided'),
             'seeded/C03-r6-change1/patch.diff': ('C03', 'the thread entry is a lambda: the spawn analysis finds no function entry (lambda captures are not in the facts)'),
+            'seeded/C07-change1/patch.diff': ('C07', 'finaliser scratch block moved into a member that keeps bytes 56..63 of the previous digest: the byte is unknown to the interpreter; since round 7 R07.d answers undecided for unknown bytes (it cannot tell earlier object content from a lost library result), see DESIGN 14.10'),
             'seeded/C09-r7-change1/patch.diff': ('C09', 'round keys moved into a std::vector (reserve instead of resize): the key schedule class is no longer recognised, std::vector is outside the model'),
             'seeded/C17-r7-change1/patch.diff': ('C17', 'key validator rewritten with std::find / std::all_of / std::count: library algorithms are outside the model, the validator has no concrete result (R17 declines)')}
 json.dump({'not_detected': NOT_DETECTED, 'declined_exit_2': {k: {'property': v[0], 'why': v[1]} for k, v in DECLINED.items()}},
